@@ -95,6 +95,81 @@ def cli_pair(sc, name, files, main):
     return out
 
 
+def selftest(chk, sc, schema_path, recs):
+    """The binding bites: corrupt one recorded field of good records; IRJsonCheck must reject each."""
+    import copy
+    tree = top = None
+    for _sz, line in sorted(recs, key=lambda x: x[0]):
+        r = json.loads(line)
+        if r.get("kind") == "tree" and tree is None and len(line) > 3000:
+            tree = r
+        if r.get("kind") == "top" and top is None and r.get("header1", "-") not in ("-",) and not r.get("exc"):
+            top = r
+        if tree is not None and top is not None:
+            break
+    if tree is None or top is None:
+        chk.extra["corruption_selftest"] = "skipped"
+        return
+
+    def first_path(node, pred, path=()):
+        """path to the first (field dict, name) satisfying pred in an abstract tree"""
+        for n, v in node["fields"].items():
+            if pred(n, v):
+                return node, n
+            subs = [v["v"]] if v["k"] == "msg" else [x["v"] for x in v["v"] if isinstance(x, dict) and x.get("k") == "msg"] if v["k"] == "list" else []
+            for sub in subs:
+                r = first_path(sub, pred)
+                if r:
+                    return r
+        return None
+
+    cases = []
+    c = copy.deepcopy(tree)
+    node, n = first_path(c["t2"], lambda n, v: v["k"] == "bool")
+    node["fields"][n]["v"] = not node["fields"][n]["v"]
+    c["id"] = "selftest:flip-bool-after-reread"
+    cases.append((c, "RoundTrip"))
+    c = copy.deepcopy(tree)
+    node, n = first_path(c["t2"], lambda n, v: v["k"] == "loc")
+    del node["fields"][n]
+    c["id"] = "selftest:location-lost-after-reread"
+    cases.append((c, "RoundTrip"))
+    c = copy.deepcopy(tree)
+    j = c["j1"]
+    while True:   # descend to some object with a scalar member and drop it
+        scal = [k for k, v in j["v"].items() if v["j"] in ("str", "bool", "num")]
+        if scal:
+            del j["v"][scal[0]]
+            break
+        k = next(k for k, v in j["v"].items() if v["j"] in ("obj", "arr"))
+        j = j["v"][k] if j["v"][k]["j"] == "obj" else j["v"][k]["v"][0]
+    c["id"] = "selftest:member-missing-in-json"
+    cases.append((c, "ToJson-renders-the-IR"))
+    c = copy.deepcopy(top)
+    c["header2"] = "0" * 16
+    c["id"] = "selftest:header-differs"
+    cases.append((c, "SplitEqualsInProc-header"))
+    c = copy.deepcopy(top)
+    c["json2"] = "0" * 16
+    c["id"] = "selftest:json-not-idempotent"
+    cases.append((c, "Idempotent"))
+    d = pipe_tlc._spec_copy(sc, "irchk-selftest")
+    cf = os.path.join(d, "cases.ndjson")
+    with open(cf, "w", encoding="utf-8") as f:
+        for c, _x in cases:
+            f.write(json.dumps(c) + "\n")
+    cfgp = os.path.join(d, "chk.cfg")
+    write_cfg(cfgp)
+    res = run_tlc(os.path.join(d, "IRJsonCheck.tla"), cfgp, workers=1, env={"SCHEMA_FILE": schema_path, "CASES_FILE": cf},
+                  timeout=900, heap="3g")
+    chk.add_tlc(res, part="corruption-selftest")
+    got = {v["id"]: set(v["clauses"]) for v in res.printed_json() if isinstance(v, dict) and "clauses" in v}
+    missed = [c["id"] for c, x in cases if x not in got.get(c["id"], set())]
+    chk.extra["corruption_selftest"] = {"corruptions": len(cases), "rejected": len(cases) - len(missed)}
+    if missed:
+        raise MachineryError("IRJsonCheck is vacuous: corrupted records were accepted: %s (%s)" % (missed, got))
+
+
 def run(chk, only=None):
     cfg = QUICK if chk.tier == "quick" else THOROUGH
     want = lambda p: only is None or p in only
@@ -246,6 +321,7 @@ def run(chk, only=None):
             if not ok:
                 raise MachineryError("IRJsonCheck ended without summary:\n" + res.out[-1000:])
         chk.evaluations = total
+        selftest(chk, sc, schema_path, recs)
         seen = set()
         for v in failing:
             for cl in v["clauses"]:
